@@ -35,6 +35,11 @@ func checkC18(c *Ctx) {
 	c.depRule(p, "C18.finalize", "comparison covers the encoded message and the signature raised to e", p.Func(cm, "", "VerifyBlindSignature"), sinkCallArg(0, "crypto/subtle.ConstantTimeCompare"), "param:hashed")
 	c.depRule(p, "C18.finalize", "comparison covers the encoded message and the signature raised to e", p.Func(cm, "", "VerifyBlindSignature"), sinkCallArg(1, "crypto/subtle.ConstantTimeCompare"), "param:sig", "param:pub")
 
+	// what the client sends, and what Finalize hands out, has the length of the modulus (the signer refuses
+	// anything else; the encoded message is one octet shorter when the modulus has 8k+1 bits)
+	klen := `make\((\(\(call:\(\*math/big\.Int\)\.BitLen\+7\)/8\)|call:[^ ]*\.Size[^ ]*)\)`
+	c.callArgRule(p, "C18.finalize", "the blinded message has the length of the modulus", p.Func(br, "Client", "fixedBlind"), "(*math/big.Int).FillBytes", "", map[int]string{1: klen})
+	c.callArgRule(p, "C18.finalize", "the blinded message has the length of the modulus", p.Func(pb, "", "fixedPartiallyBlind"), "(*math/big.Int).FillBytes", "", map[int]string{1: klen})
 	for _, f := range []struct{ pkg, what string }{{br, "blind RSA"}, {pb, "partially blind RSA"}} {
 		bs := p.Func(f.pkg, "Signer", "BlindSign")
 		c.lenReject(p, "C18.signer", bs, "data", false)
